@@ -11,6 +11,7 @@
 #include <optional>
 #include <sstream>
 #include <streambuf>
+#include <thread>
 #include <tuple>
 #include <type_traits>
 #include <variant>
@@ -463,6 +464,75 @@ struct H : Handler {
                 return "NOT_WRITABLE";
             }
         }
+        if (name == "par" || name == "parw") {
+            // par  <slot> <threads> <shared|own> coords... : every thread looks up every coordinate (3 rounds, rotated start)
+            // parw <slot> <threads> <shared|own> coords... : thread t WRITES the coordinates number j = t (mod threads), then reads them back
+            field_t & f = get(c);
+            std::size_t T = u64(c.next());
+            bool own = c.next() == "own";
+            std::vector<coord_t> xs;
+            while (c.more()) xs.push_back(parse_vec<coord_t>(c));
+            view_t shared(f);
+            auto show_at = [](const view_t & v, const coord_t & x) {
+                std::ostringstream o;
+                show_vec(o, std::decay_t<out_t>(v.at(x)));
+                return o.str();
+            };
+            std::vector<std::string> seq(xs.size());
+            if (name == "par") {
+                for (std::size_t j = 0; j < xs.size(); ++j) seq[j] = show_at(shared, xs[j]);
+                std::vector<std::string> bad(T);
+                std::vector<std::thread> th;
+                for (std::size_t t = 0; t < T; ++t)
+                    th.emplace_back([&, t]() {
+                        std::optional<view_t> mine;
+                        if (own) mine.emplace(f);
+                        const view_t & v = own ? *mine : shared;
+                        for (int round = 0; round < 3; ++round)
+                            for (std::size_t q = 0; q < xs.size(); ++q) {
+                                std::size_t j = (q + t) % xs.size();
+                                if (show_at(v, xs[j]) != seq[j] && bad[t].empty()) bad[t] = "thread " + std::to_string(t) + " coordinate #" + std::to_string(j);
+                            }
+                    });
+                for (auto & x : th) x.join();
+                for (auto & b : bad)
+                    if (!b.empty()) return "P MISMATCH " + b;
+                os << "P ok";
+                for (auto & s : seq) os << " ;" << s;
+                return os.str();
+            } else {
+                if constexpr (std::is_lvalue_reference_v<out_t>) {
+                    using val_t = std::decay_t<out_t>;
+                    auto value = [](std::size_t j) {
+                        val_t v;
+                        for (std::size_t q = 0; q < M; ++q) v[q] = static_cast<typename val_t::value_type>(1000 + 10 * j + q);
+                        return v;
+                    };
+                    std::vector<std::string> bad(T);
+                    std::vector<std::thread> th;
+                    for (std::size_t t = 0; t < T; ++t)
+                        th.emplace_back([&, t]() {
+                            std::optional<view_t> mine;
+                            if (own) mine.emplace(f);
+                            const view_t & v = own ? *mine : shared;
+                            for (std::size_t j = t; j < xs.size(); j += T) v.at(xs[j]) = value(j);
+                            for (std::size_t j = t; j < xs.size(); j += T) {
+                                std::ostringstream o;
+                                show_vec(o, value(j));
+                                if (show_at(v, xs[j]) != o.str() && bad[t].empty()) bad[t] = "thread " + std::to_string(t) + " coordinate #" + std::to_string(j);
+                            }
+                        });
+                    for (auto & x : th) x.join();
+                    for (auto & b : bad)
+                        if (!b.empty()) return "W MISMATCH " + b;
+                    os << "W ok";
+                    for (std::size_t j = 0; j < xs.size(); ++j) os << " ;" << show_at(shared, xs[j]);
+                    return os.str();
+                } else {
+                    return "NOT_WRITABLE";
+                }
+            }
+        }
         if (name == "cfg") {
             field_t & f = get(c);
             os << "C";
@@ -600,14 +670,21 @@ struct Registry {
                     if (part.empty()) {
                         r = "BAD_CASE";
                     } else {
-                        std::string opname = part[0];
-                        Cur c{part, 1};
+                        // "on <stack> <op> ..." addresses another stack type of this translation unit
+                        std::string cur = stack;
+                        std::size_t first = 0;
+                        if (part[0] == "on" && part.size() >= 3) {
+                            cur = part[1];
+                            first = 2;
+                        }
+                        std::string opname = part[first];
+                        Cur c{part, first + 1};
                         if (opname == "conv") {
                             std::string target = c.next();
-                            auto it = conversions.find(stack + ">" + target);
+                            auto it = conversions.find(cur + ">" + target);
                             r = it == conversions.end() ? "NO_SUCH_CONVERSION" : it->second(c);
                         } else {
-                            auto it = handlers.find(stack);
+                            auto it = handlers.find(cur);
                             r = it == handlers.end() ? "NO_SUCH_STACK" : it->second->op(opname, c);
                         }
                     }
